@@ -146,7 +146,7 @@ def kindOfS (nm : SExp) : U ANetKind := do
   | none => pure (.scalar a)
   | some o =>
     match sepIdent a.ident, sepName o with
-    | (some j, bi), (some i, bn) => if i = j then pure (.bit bi bn i) else throw "identifier_index_differs"
+    | (some j, bi), (some i, bn) => pure (.bit bi bn i j)
     | _, _ => pure (.scalar a)
 
 def netOfS (cx : Ctx) (ports : List APort) (insts : List AInst) (ys : List SExp) : U ANet :=
